@@ -14,10 +14,10 @@ git -C /repo worktree add -q "$wt" HEAD || exit 2
 trap 'git -C /repo worktree remove --force "$wt" 2>/dev/null; rm -rf "$out"' EXIT
 git -C "$wt" apply "$patch" || { echo "patch does not apply"; exit 2; }
 mkdir -p "$out"; cp /verif/known_findings.json "$out"/
-sed "s#=> /repo#=> $wt#" /verif/harness/go.mod > "$out/go.mod"; cp /verif/harness/go.sum "$out/go.sum"
+H=${HARNESS:-/verif/harness}; sed "s#=> /repo#=> $wt#" $H/go.mod > "$out/go.mod"; cp $H/go.sum "$out/go.sum"
 for c in "$@"; do
   race=""; [ "$c" = C05 ] && race="-race"
-  (cd /verif/harness && go build -tags verif $race -modfile="$out/go.mod" -o "$out/vcheck" ./cmd/vcheck) 2>"$out/build.log" || { echo "$id $c: BUILD ERROR"; tail -5 "$out/build.log"; continue; }
+  (cd $H && go build -tags verif $race -modfile="$out/go.mod" -o "$out/vcheck" ./cmd/vcheck) 2>"$out/build.log" || { echo "$id $c: BUILD ERROR"; tail -5 "$out/build.log"; continue; }
   res=$(VERIF_DIR="$out" "$out/vcheck" run "$c" "$tier" 2>&1); rc=$?
   nv=$(echo "$res" | grep -c "^VIOLATION")
   case $rc in
